@@ -1,5 +1,6 @@
 import Lean.Data.Json
 import GqlgenVerif.Model.Exec
+import GqlgenVerif.Model.FieldDirs
 /-! JSON decoding of the harness's schema / document / invocation-log lines into the Exec model's
     types, and rendering of model results. Shared by the C01/C04/C06/C13 drivers. -/
 open Lean GqlgenVerif
@@ -24,12 +25,21 @@ def kind (s : String) : Kind :=
   | "ENUM" => .enum | "INPUT_OBJECT" => .input | _ => .scalar
 
 def schema (j : Json) : Schema :=
+  -- the directives the schema declares (name, locations) and the ones written on each type's definition
+  let defs : List DirDef := (arr j "directives").map fun d =>
+    { name := str d "name", locs := strs d "locs", skipRuntime := boolD d "skipRuntime" false }
+  let typeDirs (n : String) : List String :=
+    match (arr j "types").find? (fun t => str t "name" == n) with
+    | some t => strs t "dirs"
+    | none => []
   { query := str j "query", mutation := str j "mutation",
     types := (arr j "types").map fun t =>
       { name := str t "name", kind := kind (str t "kind"),
         fields := (arr t "fields").map fun f =>
-          { name := str f "name", dirs := strs f "dirs", plain := boolD f "plain" false,
-            type := match f.getObjVal? "type" with | .ok ty => tref ty | _ => .named "?" false },
+          let ty := match f.getObjVal? "type" with | .ok ty => tref ty | _ => .named "?" false
+          -- the field's chain: `Model/FieldDirs.implDirectives` (inherited from the returned type's definition, then own)
+          { name := str f "name", dirs := implDirectives defs (typeDirs ty.base) (strs f "dirs"), plain := boolD f "plain" false,
+            type := ty },
         interfaces := strs t "interfaces", possible := strs t "possible",
         implementors := strs t "implementors" } }
 
